@@ -18,7 +18,7 @@ while args:
     elif a == "--tier": tier = args.pop(0)
     else: names.append(a)
 if not names:
-    names = sorted(os.path.basename(d) for d in glob.glob(os.path.join(V, "seeded", "C*-m*")))
+    names = sorted(os.path.basename(os.path.dirname(d)) for d in glob.glob(os.path.join(V, "seeded", "C*", "meta.json")))
 env = dict(os.environ, VERIF_REPO=repo)
 out = []
 for n in names:
